@@ -40,8 +40,28 @@ JudgeSep(e) ==
     ELSE IF same /\ e.ha # e.hb THEN "same molecule, different seqhash"
     ELSE IF ~same /\ e.ha = e.hb THEN "different molecules, same seqhash"
     ELSE "ok"
+(* [k|->"form", a, type, circ, ds, canon, other, idx, strand, oidx, h, digestok]  (up to several thousand letters)  *)
+(* canon: the canonical representative computed by the HARNESS by brute force; it is verified here without     *)
+(* trusting it: it must be the rotation at idx of the strand `strand` ("fwd" / "rc") of the normalised input,   *)
+(* least among its own rotations, and not greater than `other`, the verified least rotation of the other        *)
+(* strand.  digestok: the identifier equals v1_tag_BLAKE3(canon) (digest computed by the harness).             *)
+Ord27(c) == OrdOf[c]
+StrLeq(x, y) == LET n == Len(x) d == Lcp(x \o y, 0, n, 0, n) IN d = n \/ Ord27(SubSeq(x, d + 1, d + 1)) < Ord27(SubSeq(y, d + 1, d + 1))
+NormStr(s, type) == Join(Normalize(Chars(s), type))
+JudgeForm(e) ==
+    LET a == NormStr(e.a, e.type)
+        fwdRot(x, k) == SubSeq(x \o x, k + 1, k + Len(x))
+        strandOf(which) == IF which = "fwd" THEN a ELSE RC(a)
+        otherName == IF e.strand = "fwd" THEN "rc" ELSE "fwd" IN
+    IF ~(e.circ /\ Len(e.canon) = Len(a)) THEN "harness: form events are for circular molecules"
+    ELSE IF fwdRot(strandOf(e.strand), e.idx) # e.canon \/ ~IsLeastRotStr(Ord27, e.canon, e.canon, 0) THEN "harness: canon is not the least rotation of the stated strand"
+    ELSE IF e.ds /\ (fwdRot(strandOf(otherName), e.oidx) # e.other \/ ~IsLeastRotStr(Ord27, e.other, e.other, 0) \/ ~StrLeq(e.canon, e.other))
+         THEN "harness: canon is not the lesser of the two strands' least rotations"
+    ELSE IF ~WellFormed(e.h, e.type, e.circ, e.ds) THEN "identifier not of the form v1_<tag>_<64 hex>"
+    ELSE IF ~e.digestok THEN "the identifier is not the BLAKE3 digest of the canonical representative (least rotation / lesser strand)"
+    ELSE "ok"
 JudgeRej(e) == IF e.err = Accepts(Chars(e.a), e.type, e.circ, e.ds) THEN "acceptance differs from the specification" ELSE "ok"
-Judge(e) == CASE e.k = "meta" -> JudgeMeta(e) [] e.k = "sep" -> JudgeSep(e) [] e.k = "rej" -> JudgeRej(e)
+Judge(e) == CASE e.k = "meta" -> JudgeMeta(e) [] e.k = "sep" -> JudgeSep(e) [] e.k = "rej" -> JudgeRej(e) [] e.k = "form" -> JudgeForm(e)
 
 Init == l = 1
 Next == /\ l <= Len(Trace)
